@@ -171,12 +171,20 @@ def run(chk):
         'is_sequence_valid (oracle: True iff parse accepts), non-ASCII input, the 4300-digit int limit',
     ]
 
+    chk.assumptions += [
+        'input text is ASCII (CPython int()/float()/str.isdigit also accept non-ASCII digits and spaces: outside the model)',
+        'strings shorter than CPython\'s 4300-digit int conversion limit',
+        'deferred-validation clause: checked on the real code only (no Lean model of mod_mass / mod_comp)',
+    ]
+
     def oracle_exc(s):
         _, bad = L.with_alarm(lambda: _check_one(pt, seqfuncs, s), 10.0)
         return bad
 
     # ------------------------------------------------------------------ corpus first
     corpus = [c['s'] for c in L.load_corpus(PID) if c.get('op') == 'parse']
+    reach = L.Reach(serializer=False)
+    reach.__enter__()
     chk.correspond('parse_corpus', DRV, corpus, lambda s: 'parse\t1\t' + esc(s), L.impl_parse, compare=L.same_reply)
     chk.oracle('exception_class', corpus, oracle_exc)
 
@@ -226,6 +234,8 @@ def run(chk):
 
     chk.correspond('parse_random', DRV, allrand, lambda s: 'parse\t1\t' + esc(s), L.impl_parse, compare=L.same_reply,
                    nontrivial_fn=nontriv)
+    reach.__exit__()
+    chk.notes.append({'reach_of_modelled_parser_functions_during_corpus_and_random_correspondence': reach.report()})
     chk.oracle('exception_class', allrand, oracle_exc, nontrivial_fn=lambda s: len(s) > 3)
     # how the rejected / accepted classes are distributed in the random stream
     for s in allrand[:: 7]:
